@@ -11,7 +11,9 @@
 (*           and a later request finds that entry                             *)
 (*   "tick"  a cached token's lifetime runs out and a later request finds it   *)
 (*           in the TokenCache                                                *)
-(*   "unrev" a token is revoked, un-revoked (Delete or Flush) and presented   *)
+(*   "unrev" a token is revoked, looked up (the BlacklistCache holds an active *)
+(*           entry), un-revoked (Delete or Flush) and presented again         *)
+(*   "revcached" a token sitting in the TokenCache is revoked, then presented  *)
 (*   "hits"  at least two requests find their token in the TokenCache         *)
 EXTENDS TokenAuth, Json
 
@@ -33,13 +35,18 @@ Raced == \E i \in Idx : /\ h[i].call.act = "Add" /\ h[i].call.t \in h[i].st.db
                         /\ \E j \in Idx : j > i /\ h[j].call.act = "Hit" /\ h[j].call.t = h[i].call.t
 Ticked == \E i \in Idx : /\ h[i].call.act = "Tick"
                          /\ \E j \in Idx : j > i /\ h[j].call.act = "Hit" /\ kind[h[j].call.t] = "short"
+Listed(i, t, v) == t \in DOMAIN h[i].st.bcache /\ h[i].st.bcache[t] = v
 Unrevoked == \E i \in Idx : /\ h[i].call.act = "BlPurgeTok"
                             /\ \E j \in Idx : /\ j > i /\ h[j].call.act \in {"DelCache", "FlDB"}
+                                              /\ \E m \in Idx : i < m /\ m < j /\ Listed(m, h[i].call.t, "active")
                                               /\ \E k \in Idx : /\ k > j /\ h[k].call.t = h[i].call.t
                                                                 /\ h[k].call.act \in {"Add", "Hit", "validate", "extract"}
+RevCached == \E i \in Idx : /\ i > 1 /\ h[i].call.act = "BlPurgeTok" /\ h[i].call.t \in h[i-1].st.tcache
+                            /\ \E k \in Idx : k > i /\ h[k].call.act = "Find" /\ h[k].call.t = h[i].call.t
 ManyHits == Cardinality({i \in Idx : h[i].call.act = "Hit"}) >= 2
 Wanted == CASE Focus = "any"   -> TRUE
             [] Focus = "hits"  -> ManyHits
+            [] Focus = "revcached" -> RevCached
             [] Focus = "race"  -> Raced
             [] Focus = "tick"  -> Ticked
             [] Focus = "unrev" -> Unrevoked
